@@ -212,7 +212,14 @@ class FloatInterp:
                 return base.items[e.slice.value]
             return Top("subscript")
         if isinstance(e, ast.IfExp):
-            return hull(self.ev(e.body, env, fi), self.ev(e.orelse, env, fi))
+            te, fe = self.refine(e.test, env, fi)
+            a = self.ev(e.body, te, fi) if te is not None else None
+            b = self.ev(e.orelse, fe, fi) if fe is not None else None
+            if a is None:
+                return b if b is not None else Top("conditional expression with no feasible branch")
+            if b is None:
+                return a
+            return hull(a, b)
         if isinstance(e, ast.Call):
             return self.call(e, env, fi)
         return Top(type(e).__name__)
